@@ -513,7 +513,7 @@ func (c *copier) copy(ctx context.Context, src, srcComponents, target string, ov
 			return errors.Wrap(err, "failed to copy file info")
 		}
 
-		if err := copyXAttrs(target, src, c.xattrErrorHandler); err != nil {
+		if err := copyXAttrs(target, src, c.xattrErrorHandler, c.mode != nil || c.modeSet != nil); err != nil {
 			return errors.Wrap(err, "failed to copy xattrs")
 		}
 	} else if restoreFileTimestamp && targetFi != nil {
@@ -617,7 +617,7 @@ func (c *copier) createParentDirs(src string, overwriteTargetMetadata bool) erro
 				return errors.Wrap(err, "failed to copy file info")
 			}
 
-			if err := copyXAttrs(parentDir.dstPath, parentDir.srcPath, c.xattrErrorHandler); err != nil {
+			if err := copyXAttrs(parentDir.dstPath, parentDir.srcPath, c.xattrErrorHandler, c.mode != nil || c.modeSet != nil); err != nil {
 				return errors.Wrap(err, "failed to copy xattrs")
 			}
 		}
